@@ -70,6 +70,13 @@ class Samplers(Part):
         d = case["d"]
         params = make_params(rng, d)
         kind = case["kind"]
+        if kind == "random" and case["cseed"] % 2:
+            # some parameters declare a rounding precision (one their bounds are multiples of, so rounding cannot leave the box),
+            # the others do not: each parameter is generated with its own declaration
+            table = {(0.0, 1.0): 0.1, (-3.0, -1.0): 0.5, (2.0, 1024.0): 1.0, (-1e6, 1e6): 10.0, (100.0, 100.5): 0.5, (5.0, 5.5): 0.25}
+            for q in params:
+                if tuple(q['bounds']) in table and rng.random() < 0.6:
+                    q['precision'] = table[tuple(q['bounds'])]
         ev = {"ev": "design", "kind": kind, "n": case.get("n", 0), "d": d, "k": case.get("k", 0), "m": [], "exact": True,
               "dims_ok": True, "inbox": True, "exc": ""}
         gen = {"lhs": ops.LHSGenerator, "halton": ops.HaltonGenerator, "grid": ops.UniformGenerator, "random": ops.RandomGenerator}[kind](params)
